@@ -76,7 +76,7 @@ def run(ck, ix, tier):
                              f"`{norm(c)}` validates `{arg}` although the validator (and the error message) is about the {fld}")
                 if isinstance(c, ast.Call) and call_name(c) in ("filterfalse", "map") and len(c.args) == 2 and norm(c.args[0]).startswith("errors.is_"):
                     ck.ok("G-ERR", f"{qual}|validator-over-reference|{norm(c.args[0])[-25:]}", pi.loc(c), f"{norm(c)[:70]}")
-    ck.floor("G-ERR", n_post, 8, "__post_init__ validators of definition dataclasses")
+    ck.floor("G-ERR", n_post, 4, "__post_init__ validators of definition dataclasses")
     for q, inv in (("UnitDefinition.__post_init__", ["is_valid_unit_name(self.name)", "is_valid_unit_symbol(self.defined_symbol)", "is_valid_unit_alias(alias)"]),
                    ("PrefixDefinition.__post_init__", ["is_valid_prefix_name(self.name)", "is_valid_prefix_symbol(self.defined_symbol)", "is_valid_prefix_alias(alias)"]),
                    ("AliasDefinition.__post_init__", ["is_valid_unit_name(self.name)", "is_valid_unit_alias(alias)"]),
@@ -121,7 +121,7 @@ def run(ck, ix, tier):
                     continue
                 ck.check(lo <= n <= hi, "G-ERR", f"{q}|constructor-arity|{call_name(c)}|{norm(c)[:30]}", f.loc(c), f"{call_name(c)} called with {n} argument(s)",
                          f"`{norm(c)[:80]}` passes {n} argument(s), {call_name(c)}.__init__ takes {lo}..{hi}")
-    ck.floor("G-ERR", n_ctor, 40, "constructions of pint exception classes")
+    ck.floor("G-ERR", n_ctor, 15, "constructions of pint exception classes")
 
     # ------------------------------------------------------------ iter_parsed_project
     f = ix.func(TP + ".defparser", "DefParser.iter_parsed_project")
@@ -159,7 +159,7 @@ def run(ck, ix, tier):
             bad = [c for c in walk_local(fn.node) if isinstance(c, ast.Call) and isinstance(c.func, ast.Name) and c.func.id in ("float", "complex", "eval", "int") and fn.name.startswith("from_string")]
             ck.check(not bad, "G-PROV", f"{fn.qualname.split('::')[1]}|numbers-only-through-config", fn.loc(bad[0]) if bad else fn.loc(), "no float()/complex()/int()/eval() in a classifier",
                      f"`{norm(bad[0]) if bad else ''}` converts a number of a definition outside ParserConfig (registry numeric type lost)") if fn.name.startswith("from_string") else None
-    ck.floor("G-ERR", n_cls, 10, "DefinitionSyntaxError constructions in classifiers")
+    ck.floor("G-ERR", n_cls, 5, "DefinitionSyntaxError constructions in classifiers")
     # numbers through the config
     for mod, q, frag in ((TP + ".plain", "PrefixDefinition.from_string_and_config", "value = config.to_number(value)"), (TP + ".plain", "UnitDefinition.from_string_and_config", "key.strip(): config.to_number(value)"),
                          (TP + ".plain", "UnitDefinition.from_string_and_config", "converter = config.to_scaled_units_container(converter)"), (TP + ".context", "BeginContext.from_string_and_config", "str(k).strip(): config.to_number(v)"),
@@ -184,7 +184,7 @@ def run(ck, ix, tier):
     if not union:
         raise AnalysisError("PintRootBlock union not found")
     members = [ix.resolve_expr(root.module, x) for x in union]
-    ck.floor("G-EXH", len(members), 11, "members of the root block union")
+    ck.floor("G-EXH", len(members), 6, "members of the root block union")
     registered = set()
     reg = ix.cls("pint.registry", "UnitRegistry")
     for c in ix.mro(reg):
@@ -197,7 +197,7 @@ def run(ck, ix, tier):
                 r = ix.resolve_expr(ra.module, call.args[0])
                 if isinstance(r, ClassInfo):
                     registered.add(r)
-    ck.floor("G-EXH", len(registered), 10, "registered definition adders along the UnitRegistry MRO")
+    ck.floor("G-EXH", len(registered), 4, "registered definition adders along the UnitRegistry MRO")
     for x, mem in zip(union, members):
         if not isinstance(mem, ClassInfo):
             raise AnalysisError(f"cannot resolve union member {norm(x)}")
@@ -240,11 +240,20 @@ def run(ck, ix, tier):
         names = [norm(x).split(".")[-1] for x in body]
         ck.check(names == ORDER[cn], "G-EXH", f"{cn}|body-classifier-order", ci.module.relpath, f"body classifiers tried in order {names}",
                  f"{cn} tries its body classifiers in order {names}; the confirmed order is {ORDER[cn]} (flexparser takes the first classifier that answers: a comment/relation line would be re-classified)")
-        used = " ".join(norm(m.node) for m in ci.methods.values())
+        used = set()
+        for mth in ci.methods.values():
+            for c in walk_local(mth.node):
+                if isinstance(c, ast.Call) and call_name(c) in ("isinstance", "filter_by") and c.args:
+                    sel = c.args[-1]
+                    for n in ast.walk(sel):
+                        if isinstance(n, ast.Attribute):
+                            used.add(n.attr)
+                        elif isinstance(n, ast.Name):
+                            used.add(n.id)
         for nm in names:
             if nm == "CommentDefinition":
                 continue
-            ck.check(f"{nm})" in used or f"{nm}," in used or f"plain.{nm}" in used.replace(f"ty.Union", ""), "G-EXH", f"{cn}|body-member-consumed|{nm}", ci.module.relpath, f"{nm} statements are consumed by derive_definition",
+            ck.check(nm in used, "G-EXH", f"{cn}|body-member-consumed|{nm}", ci.module.relpath, f"{nm} statements are consumed by derive_definition",
                      f"{cn}: body statements of class {nm} are parsed but never consumed when the definition is derived")
         dd = ci.methods.get("derive_definition")
         ck.check(dd is not None, "G-EXH", f"{cn}|derive_definition-present", ci.module.relpath, "derive_definition present", f"{cn} has no derive_definition")
